@@ -268,7 +268,8 @@ def dltyped(  # noqa: C901, PLR0915
                     bad_scope_provider=scope_provider,
                 )
 
-            for name in dltype_hints:
+            # walk the parameters in signature order: the hints follow `__annotations__`, which lists positional-only parameters last
+            for name in (n for n in signature.parameters if n in dltype_hints):
                 if name == return_key:
                     # special handling of the return value, we don't want to evaluate the function before the arguments are checked
                     continue
